@@ -61,11 +61,23 @@ def pl(name, pool, nst, gl=0, l1=0, l2=0, l3=0, flt=0, items=2, depth=2, others=
 
 
 _Q = ('quick', 'thorough')
+_T = ('thorough',)
 INSTANCES = [
-    pl('g_s_p1', 1, 1, tiers=_Q),
-    pl('g_x2_s_p1', 1, 2, l1=2, tiers=_Q),
-    pl('g2_xu_s_p2', 2, 2, gl=2, l1=99, tiers=_Q),
-    pl('g_f_s_p1', 1, 2, flt=1, tiers=_Q),
-    pl('g_x_s_p0', 0, 2, tiers=_Q),
-    pl('g_x_s_p1_c2', 1, 2, ctx=2, tiers=_Q),
+    # quick: 10-110 paths each
+    pl('g_s_p1', 1, 1, tiers=_Q),                      # generator -> serial sink, 1 pool thread
+    pl('g_s_p2', 2, 1, tiers=_Q),                      # same on 2 pool threads (tasks overlap)
+    pl('g_x2_s_p1', 1, 2, l1=2, tiers=_Q),             # limit-2 transform, serial sink
+    pl('g_f_s_p1', 1, 2, flt=1, tiers=_Q),             # filtering stage (OpResult), symbolic filtered set
+    pl('g_x_s_p0', 0, 2, tiers=_Q),                    # pool without threads: everything inline
+    pl('g_x_s_p1_c2', 1, 2, ctx=2, tiers=_Q),          # overloaded pool: inline fallbacks of schedulePlaced
+    # thorough
+    pl('g2_xu_s_p2', 2, 2, gl=2, l1=99, tiers=_T, timeout=3000),   # 2 generator tasks, unlimited transform (> 870 paths)
+    pl('g_x_x2_s_p1', 1, 3, l2=2, tiers=_T, timeout=3000),         # 3 stages after the generator
+    pl('g_f_x2_s_p2', 2, 3, flt=1, l2=2, tiers=_T, timeout=3000),  # filter + limited stage on 2 threads
+    pl('g_x2_s_p1_i3', 1, 2, l1=2, items=3, pq=6, mq=3, unwind=5, tiers=_T, timeout=3000),  # 3 items
+    pl('g_x_s_p2_c1', 2, 2, ctx=1, tiers=_T, timeout=3000),        # pipeline() called from a pool thread
+    pl('g_x_s_p1_c3', 1, 2, ctx=3, tiers=_T, timeout=3000),        # overloaded, inline depth 31 -> forced queuing after one frame
+    pl('g_x_s_p1_c4', 1, 2, ctx=4, tiers=_T, timeout=3000),        # overloaded, inline depth 32
+    pl('g_s_p2_any', 2, 1, any_=1, tiers=_T, timeout=3000),        # pool hands out any queued task
+    pl('single_p1', 1, 0, tiers=_T), pl('single2_p2', 2, 0, gl=2, tiers=_T),   # single-stage pipelines
 ]
